@@ -61,6 +61,17 @@ pub fn fam_mix(win: bool, dom: &[Vec<u8>], all_upto: usize, nrand: usize, seed: 
     }
 }
 
+/// the same interleavings, answered on the model side by the combinator transcription
+pub fn fam_cmix(win: bool, dom: &[Vec<u8>], all_upto: usize, nrand: usize, seed: u64, out: &mut Vec<String>) {
+    let mut rng = Rng::new(seed ^ 0x43);
+    for s in dom {
+        let steps = ncomp_bound(s, win) + 2;
+        for m in masks(steps, all_upto, nrand, &mut rng) {
+            out.push(format!("cmix {} {} {}", e(win), hex(s), m));
+        }
+    }
+}
+
 pub fn fam_unary(op: &str, win: bool, dom: &[Vec<u8>], out: &mut Vec<String>) {
     for s in dom {
         out.push(format!("{} {} {}", op, e(win), hex(s)));
@@ -575,6 +586,13 @@ pub fn gen(prop: &str, tier: &str, seed: u64) -> Vec<String> {
                 let full = if win { dom_win(tier, seed) } else { dom_unix(tier, seed) };
                 for op in ["comps", "back", "parent", "norm"] {
                     fam_unary(op, win, &full, &mut out);
+                }
+                // ... and through the byte-level combinator transcription (checked indices, fuelled loops)
+                fam_cmix(win, &full, 4, 3, seed, &mut out);
+                for s in &d {
+                    for m in ["ffffff", "bbbbbb", "fbfbfb", "bffbbf"] {
+                        out.push(format!("cmix {} {} {}", e(win), hex(s), m));
+                    }
                 }
                 let a: Vec<Vec<u8>> = dom_args(win, tier, seed).into_iter().take(40).collect();
                 for op in ["push", "pushc", "setfn", "setext", "strip"] {
